@@ -125,6 +125,30 @@ def _derived_first(E, st, L):
         v < w)))
 
 
+def _setof(E, st, L):
+    """set abstraction of a list value: Array Elem Bool with a named index witness (no nested skolems)."""
+    h = st.heap[L.rid]
+    if isinstance(h, HDict):
+        return L
+    if h.et is None:
+        from pyvc.state import empty_hdict
+        return st.alloc(empty_hdict(('obj', 'Layer'), None))
+    key = ('setof', h.arr.get_id(), h.n.get_id())
+    if key in st.facts:
+        return st.facts[key][1]
+    S = sort_of(h.et)
+    mem = z3.Const(fresh_name('setof'), z3.ArraySort(S, z3.BoolSort()))
+    idx = z3.Function(fresh_name('setidx'), S, z3.IntSort())
+    i = z3.Int(fresh_name('i'))
+    x = z3.Const(fresh_name('x'), S)
+    st.assume_closed(z3.ForAll([i], z3.Implies(z3.And(0 <= i, i < h.n), z3.Select(mem, z3.Select(h.arr, i)))), qf=False)
+    st.assume_closed(z3.ForAll([x], z3.Implies(z3.Select(mem, x),
+                                               z3.And(0 <= idx(x), idx(x) < h.n, z3.Select(h.arr, idx(x)) == x))), qf=False)
+    ref = st.alloc(HDict(h.et, None, mem, None))
+    st.facts[key] = ((h.arr, h.n), ref)
+    return ref
+
+
 def _bases_attr(E, st, obj):
     return st.alloc(HList(('obj', 'Layer'), bases_arr(obj.z), nb(obj.z)))
 
@@ -141,7 +165,7 @@ def register(E):
     E.objattrs[('Layer', '__bases__')] = _bases_attr
     E.truthy_sorts['Layer'] = 'always'
     E.specfuncs.update({'WF': _wf, 'isanc': _isanc, 'panc': _panc, 'rank': _rank, 'closed': _closed,
-                        'distinct': _distinct, 'bases_first': _bases_first, 'derived_first': _derived_first})
+                        'distinct': _distinct, 'setof': _setof, 'bases_first': _bases_first, 'derived_first': _derived_first})
     E.assumptions += [
         "A-IDENT: layers are compared and hashed by identity (no __eq__/__hash__ override)",
         "WF: the __bases__ relation of layers is acyclic (a rank function exists); object has no bases",
